@@ -5,6 +5,7 @@
 From BU Require Import Lib.Bytes Lib.PolyMod CashAddr.CashAddr Bech32.Bech32
   Checksum.Syndrome Checksum.Valid Checksum.CashDetect Checksum.BechDetect
   Checksum.CashString Checksum.BechString.
+From BU Require Import Gen.Kernels Tie.KernelsTie.
 
 (* ---------- CashAddr ---------- *)
 (* every string that agrees with an accepted string on the prefix and the separator, has the same
@@ -111,6 +112,19 @@ Theorem C03_bech32_checksum_unique : forall hrp a b,
   Bech32.verify_checksum hrp (a ++ b) = true -> b = Bech32.create_checksum hrp a.
 Proof. exact bech32_checksum_unique_app. Qed.
 Print Assumptions C03_bech32_checksum_unique.
+
+(* ---------- the models of the two remainder functions are the translated source ---------- *)
+(* Gen/Kernels.v is produced from the Go ASTs of polyMod / bech32Polymod by harness/cmd/gotrans on every
+   run; a structural change that keeps every literal (e.g. `^=` -> `|=`) breaks these *)
+Theorem C03_cashaddr_polymod_is_translated_source : forall v,
+  Bytes v -> Kernels.polyMod v = CashAddr.polymod v.
+Proof. exact polyMod_tie. Qed.
+Print Assumptions C03_cashaddr_polymod_is_translated_source.
+
+Theorem C03_bech32_polymod_is_translated_source : forall values,
+  Forall (fun x => x < 2 ^ 30) values -> Kernels.bech32Polymod values = Bech32.polymod values.
+Proof. exact bech32Polymod_tie. Qed.
+Print Assumptions C03_bech32_polymod_is_translated_source.
 
 (* ---------- the hypotheses are satisfiable ---------- *)
 (* "bitcoincash:qpm2qsznhks23z7629mms6s4cwef74vcwvy22gdx6a" is accepted; with 'q' -> 'p' at the first
